@@ -11,6 +11,7 @@ mod s_frames;
 mod s_packets;
 mod mock;
 mod s_links;
+mod s_proto;
 
 #[global_allocator]
 static ALLOC: mock::Counting = mock::Counting;
@@ -51,6 +52,8 @@ fn main() {
                 "RCV" => s_links::gen_rcv(&mut r, thorough, &mut cx),
                 "LNK" => s_links::gen_lnk(&mut r, thorough, &mut cx),
                 "SND" => s_links::gen_snd(&mut r, thorough, &mut cx),
+                "PRO" => s_proto::gen_pro(&mut r, thorough, &mut cx),
+                "EXC" => s_proto::gen_exc(&mut r, thorough, &mut cx),
                 s => { eprintln!("unknown stream {}", s); std::process::exit(2); }
             }
         }
@@ -69,6 +72,8 @@ fn main() {
                 "RCV" => s_links::exec_rcv,
                 "LNK" => s_links::exec_lnk,
                 "SND" => s_links::exec_snd,
+                "PRO" => s_proto::exec_pro,
+                "EXC" => s_proto::exec_exc,
                 s => { eprintln!("unknown stream {}", s); std::process::exit(2); }
             };
             let stdin = std::io::stdin();
